@@ -93,6 +93,18 @@ CHECKS["C19"] = dict(
     note="Stub: {!r} of a symbolic character inside the error text. Outside: indentation/tag-stack combinators, regex and quoted "
          "tag predicates, JSON floats with symbolic digits, escapes/unicode/scientific notation.")
 
+CHECKS["C17"] = dict(
+    text="Bounded symbolic execution of the real marker writers / write_to_disk / generate_machine_id against a symbolic file "
+         "system: the kind of every marker and of the machine-id path (absent, file, live symlink, dangling symlink) and the "
+         "existence of both configuration directories are solver variables, lexists()/islink()/exists() return solver terms; "
+         "every history of <=2 (quick) / <=3 (thorough) register / unregister / marker-deletion operations must never leave both "
+         "markers, must leave a regular file at the written marker and must not write through a planted symlink; every history "
+         "of <=3 / <=4 reads and regenerations from 7 identifier-file contents x 4 subscription identities must return a canonical, "
+         "stable identifier and never rewrite a valid file.",
+    note="Stubs: os/open/uuid of insights.client.utilities, _get_rhsm_identity; validated by running the same concrete cases on a "
+         "real temporary directory. Outside: directories at marker paths, concurrent clients, identifier stability when the "
+         "configuration directory does not exist (write_to_disk ignores missing directories by design).")
+
 NOT_APPLICABLE = {
 }
 
